@@ -1008,6 +1008,9 @@ class ReaderExtractor:
             if isinstance(c, ast.Call) and isinstance(c.func, ast.Name) and c.func.id == "isinstance" and len(c.args) == 2 and norm(c.args[0]).endswith(".tag") and \
                     norm(c.args[1]).split(".")[-1] == "ASN1Tag":
                 continue            # `isinstance(h.tag, ASN1Tag)` (what a class pattern of a match statement tests first)
+            if isinstance(c, ast.Call) and isinstance(c.func, ast.Name) and c.func.id == "isinstance" and len(c.args) == 2 and isinstance(c.args[0], ast.Name) and \
+                    norm(c.args[1]).split(".")[-1] == "ASN1Header":
+                continue            # `isinstance(h, ASN1Header)`: h is a header, not None
             if isinstance(c, ast.Compare) and len(c.ops) == 1 and isinstance(c.ops[0], ast.Eq):
                 l, r_ = c.left, c.comparators[0]
                 lt = norm(l)
@@ -1052,6 +1055,9 @@ class ReaderExtractor:
                         return True
                     if isinstance(v, ast.Call) and isinstance(v.func, ast.Name) and v.func.id == "isinstance" and len(v.args) == 2 and norm(v.args[0]) == hv + ".tag" and \
                             norm(v.args[1]).split(".")[-1] == "ASN1Tag":
+                        return True
+                    if isinstance(v, ast.Call) and isinstance(v.func, ast.Name) and v.func.id == "isinstance" and len(v.args) == 2 and norm(v.args[0]) == hv and \
+                            norm(v.args[1]).split(".")[-1] == "ASN1Header":
                         return True
                     return False
                 parts = [p_ for p_, v in zip(parts, t.values) if not (p_ is None and _always(v))]
@@ -1778,6 +1784,8 @@ class ReaderExtractor:
                     elif isinstance(b, ast.Assign) and isinstance(b.value, ast.Call) and isinstance(b.value.func, ast.Attribute) and b.value.func.attr == "peek_header":
                         st["headers"].setdefault(b.targets[0].id, None)
                         # peek refresh inside a guard (controls): plain bookkeeping
+                    elif isinstance(b, ast.Assign) and len(b.targets) == 1 and isinstance(b.targets[0], ast.Name):
+                        self._note_alias(b.targets[0].id, b.value, st)        # tag = next_header.tag
                 if not node.alts:
                     st["readers"][rvar].remove(node)
                 return
